@@ -20,6 +20,7 @@ THEOREMS_LIFE = [
     "Aio.C20.cleanup_iff_started_run_app_single_partial",
     "Aio.C20.run_app_eq_runner_when_startup_succeeds",
     "Aio.C20.cleanup_iff_started_tree_partial",
+    "Aio.C20.root_contexts_always_cleaned",
     "Aio.C20.f16_run_app_setup_outside_try",
     "Aio.C20.run_app_failed_startup_never_cleans",
     "Aio.C20.subapp_contexts_skipped_after_failed_startup",
@@ -239,6 +240,66 @@ def run_real_run_app(table):
 
 
 # ------------------------------------------------------------------------------------ direct oracle
+def _parents(table):
+    par = {}
+    for a, d in enumerate(table):
+        for sl in d["su"]:
+            if sl[0] == "s":
+                par[sl[1]] = a
+    return par
+
+
+def _path(par, a):
+    """[root, …, a]"""
+    out = [a]
+    while out[-1] in par:
+        out.append(par[out[-1]])
+    return out[::-1]
+
+
+def app_relation(table, r, a):
+    """how application r stands to application a in the tree: ("same",) | ("ancestor", child of r towards a) |
+    ("descendant",) | ("earlier-sibling" / "later-sibling",) by the order in which add_subapp registered the two branches"""
+    par = _parents(table)
+    pr, pa = _path(par, r), _path(par, a)
+    if r == a:
+        return ("same",)
+    k = 0
+    while k < len(pr) and k < len(pa) and pr[k] == pa[k]:
+        k += 1
+    if k == len(pr):
+        return ("ancestor", pa[k])
+    if k == len(pa):
+        return ("descendant",)
+    subs = [sl[1] for sl in table[pr[k - 1]]["su"] if sl[0] == "s"]
+    return ("earlier-sibling",) if subs.index(pr[k]) < subs.index(pa[k]) else ("later-sibling",)
+
+
+def raiser_vs_skipped(table, raiser, a):
+    """signature tail `<what raised>/<whose contexts were skipped>` for a cleanup step `raiser` (x<app>.<i> or c<id>)
+    that raised in a life in which a started context of application `a` was never cleaned"""
+    if raiser[0] == "x":
+        what, r, pos = "ctx-exit", int(raiser[1:].split(".")[0]), None
+    else:
+        what = "on_cleanup-handler"
+        r, pos = next((k, n) for k, d in enumerate(table) for n, sl in enumerate(d["cl"]) if sl[0] == "h" and sl[1] == int(raiser[1:]))
+    rel = app_relation(table, r, a)
+    if rel[0] == "same":
+        whose = "own-app-contexts"
+    elif rel[0] == "ancestor":
+        whose = "subapp-contexts"
+        if pos is not None:   # handler registered before or after the add_subapp() leading to `a`
+            sub_pos = next(n for n, sl in enumerate(table[r]["cl"]) if sl[0] == "s" and sl[1] == rel[1])
+            whose += "-registered-later" if pos < sub_pos else "-registered-earlier"
+    elif rel[0] == "descendant":
+        whose = "parent-app-contexts"
+    elif rel[0] == "earlier-sibling":
+        whose = "later-sibling-app-contexts"
+    else:
+        whose = "earlier-sibling-app-contexts"
+    return f"{what}/{whose}-skipped"
+
+
 def oracle_life(ctx, case, log, res):
     """the property on the implementation's own event log: cleanup code of a context runs exactly once iff its
     start-up code completed, in reverse order of start-up.  Judged only for lives in which cleanup was requested."""
@@ -273,7 +334,8 @@ def oracle_life(ctx, case, log, res):
                 # a failing cleanup code must not stop the other contexts of the same application
                 sig = "C20/exit-raises/other-contexts-of-same-app-not-cleaned"
             elif cleanup_failed:
-                sig = "C20/cleanup-step-raises/remaining-apps-not-cleaned"
+                # name the step that raised and whose contexts were skipped (structural, from the input table)
+                sig = "C20/cleanup-step-raises/" + raiser_vs_skipped(table, [e for e in failed if e[0] in "xc"][-1], int(c.split(".")[0]))
             else:
                 sig = "C20/context-not-cleaned"
             ctx.violation(sig, case, f"context {c}: start-up completed but its cleanup code never ran "
@@ -283,8 +345,12 @@ def oracle_life(ctx, case, log, res):
     seq = [c for c in exits if c in order]
     for p, q in zip(seq, seq[1:]):
         if order[p] < order[q]:
-            same = p.split(".")[0] == q.split(".")[0]
-            ctx.violation("C20/order/not-reverse-within-app" if same else "C20/order/parent-app-exits-before-subapp", case,
+            ap, aq = int(p.split(".")[0]), int(q.split(".")[0])
+            rel = app_relation(table, ap, aq)[0]
+            sig = {"same": "C20/order/not-reverse-within-app", "ancestor": "C20/order/parent-app-exits-before-subapp",
+                   "descendant": "C20/order/subapp-started-before-parent", "earlier-sibling": "C20/order/earlier-sibling-app-exits-before-later",
+                   "later-sibling": "C20/order/later-sibling-started-before-earlier"}[rel]
+            ctx.violation(sig, case,
                           f"context {p} (started before {q}) is cleaned before it; started={entered} cleaned={exits}")
             break
 
@@ -317,6 +383,18 @@ def seed_cases():
                             app_row(ctxs=[(g, 0, 0)])]))                                      # root exit error skips sub
         out.append((entry, [app_row(su=[("s", 1)], sd=[("s", 1)], cl=[("s", 1)]),
                             app_row(ctxs=[(g, 0, 0), (g, 1, 0)])]))
+        # one raising cleanup step at every position relative to a context that must still be cleaned
+        one, sub3 = [(g, 0, 0)], [("s", 1)]
+        two = [("s", 1), ("s", 2)]
+        out.append((entry, [app_row(ctxs=one, su=sub3, sd=sub3, cl=[("h", 1, 1), ("s", 1)]), app_row(ctxs=one)]))   # handler before sub
+        out.append((entry, [app_row(ctxs=one, su=sub3, sd=sub3, cl=[("s", 1), ("h", 1, 1)]), app_row(ctxs=one)]))   # handler after sub
+        out.append((entry, [app_row(ctxs=one, su=sub3, sd=sub3, cl=sub3), app_row(ctxs=one, cl=[("h", 1, 1)])]))    # sub's handler
+        out.append((entry, [app_row(ctxs=one, su=sub3, sd=sub3, cl=sub3), app_row(ctxs=[(g, 0, 1)])]))              # sub's exit
+        out.append((entry, [app_row(ctxs=one, su=two, sd=two, cl=two), app_row(ctxs=[(g, 0, 1)]), app_row(ctxs=one)]))           # earlier sibling's exit
+        out.append((entry, [app_row(ctxs=one, su=two, sd=two, cl=two), app_row(ctxs=one, cl=[("h", 1, 1)]), app_row(ctxs=one)]))  # earlier sibling's handler
+        out.append((entry, [app_row(ctxs=one, su=two, sd=two, cl=two), app_row(ctxs=one), app_row(ctxs=[(g, 0, 1)])]))           # later sibling's exit
+        out.append((entry, [app_row(ctxs=one, su=two, sd=two, cl=two), app_row(ctxs=one), app_row(ctxs=one, cl=[("h", 1, 1)])]))  # later sibling's handler
+        out.append((entry, [app_row(su=two, sd=two, cl=two), app_row(ctxs=one), app_row(ctxs=one)]))                              # sibling order
     out.append(("r:C", [app_row(ctxs=[(g, 0, 0)])]))
     out.append(("r:S", [app_row(ctxs=[(g, 0, 0), (g, 1, 0)])]))
     out.append(("r:CSC", [app_row(ctxs=[(g, 0, 0), (g, 0, 1)])]))
@@ -394,6 +472,23 @@ def shape(n_root, n_sub, handlers=True):
     return tbl
 
 
+def shape_tree():
+    """root(2 contexts) -> sub 1 (1 context) -> sub 3 (1 context), root -> sub 2 (1 context); in every application a
+    user handler on every signal before and after each add_subapp"""
+    hid = itertools.count(1)
+
+    def row(n, subs):
+        d = app_row(ctxs=[(KINDS[(n + k) % 3], 0, 0) for k in range(n)])
+        for k in ("su", "sd", "cl"):
+            d[k].append(["h", next(hid), 0])
+        for j in subs:
+            for k in ("su", "sd", "cl"):
+                d[k].append(["s", j])
+                d[k].append(["h", next(hid), 0])
+        return d
+    return [row(2, [1, 2]), row(1, [3]), row(1, []), row(1, [])]
+
+
 def all_small(max_n):
     """every assignment of enter in {ok, exc} x exit in {ok, exc, cancel} to n <= max_n contexts of one application"""
     for n in range(0, max_n + 1):
@@ -437,7 +532,7 @@ def check_life(ctx):
     rng = ctx.rng
     cases = list(seed_cases())
     # every single failing position of a few fixed shapes, through every entry
-    for tbl in (shape(4, None), shape(3, 2), shape(2, 3)):
+    for tbl in (shape(4, None), shape(3, 2), shape(2, 3), shape_tree()):
         for t in single_failures(tbl):
             for e in ENTRIES:
                 cases.append((e, t))
